@@ -18,6 +18,16 @@ from fns import G, frs, np_epoch_ns, unfr
 NS = 10 ** 9
 
 
+def unit_of(case):
+    """nanoseconds per unit of case["ts"] (default: whole seconds; sub-second sampling uses a smaller unit)"""
+    return case.get("unit_ns", NS)
+
+
+def secs_of(case):
+    u = unit_of(case)
+    return list(case["ts"]) if u == NS else [F(t * u, NS) for t in case["ts"]]
+
+
 def range_nan_case(case):
     """Known deviation class of the real code (AttenuatedProofs.atten_refuted_range_nan):
     check_type='range', test_period given, and some present point whose trailing window
@@ -25,7 +35,7 @@ def range_nan_case(case):
     although the window holds observed values.  Exactly the negation of the refinement's
     `range_clean` hypothesis (for a non-empty series in rolling mode)."""
     tp = None if case["tp"] == "absent" else case["tp"]
-    xs, ts = case["xs"], case["ts"]
+    xs, ts = case["xs"], secs_of(case)
     if case["check"] != "range" or not tp or len(xs) != len(ts):
         return False
     for i, x in enumerate(xs):
@@ -45,7 +55,7 @@ class Attenuated(Adapter):
         from ioos_qc import qartod
 
         kw = {"inp": core.to_float_array([unfr(x) for x in case["xs"]]),
-              "tinp": np_epoch_ns([t * NS for t in case["ts"]]),
+              "tinp": np_epoch_ns([t * unit_of(case) for t in case["ts"]]),
               "suspect_threshold": float(unfr(case["st"])),
               "fail_threshold": float(unfr(case["ft"]))}
         if case["check"] is not None:
@@ -63,7 +73,7 @@ class Attenuated(Adapter):
         tp = None if case["tp"] == "absent" else case["tp"]
         return (f"(atten_model {chk} {q(unfr(case['st']))} {q(unfr(case['ft']))} "
                 f"{opt(tp, z)} {opt(case['min_obs'], z)} {opt(case['min_period'], z)} "
-                f"{obs_list([unfr(x) for x in case['xs']])} {clist([z(t * NS) for t in case['ts']])})")
+                f"{obs_list([unfr(x) for x in case['xs']])} {clist([z(t * unit_of(case)) for t in case['ts']])})")
 
     def spec(self, case):
         return self.model(case).replace("atten_model", "atten_spec", 1)
@@ -239,5 +249,22 @@ def gen_atten(tier, rng):
         cases.append(mk([F(1), F(3), F(0)], [0, 1], check, F(1), F(2), 2, None, None))
         cases.append(mk([F(1), F(3), F(0)], [0, 1], check, F(1), F(2), None, None, None))
         cases.append(mk([F(1), F(3)], [0, 1], check, F(5), F(2), -2, None, None))
+    # sub-second and fractional sampling (0.25, 0.5, 1.5 s per step): min_period is divided by the TRUE step
+    # (before the repair of F24 the step was floored to whole seconds: 0 -> ValueError, 1.5 -> 1)
+    for _ in range(120 if tier == "quick" else 1200):
+        unit = rng.choice([NS // 4, NS // 2, 3 * NS // 2])
+        n = rng.randint(3, 9)
+        ts = list(range(n)) if rng.random() < 0.7 else sorted(rng.sample(range(0, 3 * n), n))
+        xs = [rng.choice(alpha + [F(2)]) for _ in range(n)]
+        check = rng.choice(["std", "range"])
+        tp = rng.choice([1, 2, 3])
+        mo, mp = rng.choice([(None, 1), (None, 2), (None, 3), (None, 0), (2, None), (None, None)])
+        c0 = mk(xs, ts, check, F(1), F(1, 2), tp, mo, mp)
+        c0["unit_ns"] = unit
+        sp = spreads(xs, secs_of(c0), check, tp)
+        for st, ft in threshold_pairs(check, sp, rng, 1):
+            c = mk(xs, ts, check, st, ft, tp, mo, mp)
+            c["unit_ns"] = unit
+            cases.append(c)
     cases += big_shift_copies(cases, "xs", rng, 150 if tier == "quick" else 1500, lambda c: c.get("check") == "range")
     return cases
